@@ -124,7 +124,14 @@ func (w *World) Import(ipath string) (*types.Package, error) {
 	}
 	info := &types.Info{Types: map[ast.Expr]types.TypeAndValue{}, Defs: map[*ast.Ident]types.Object{}, Uses: map[*ast.Ident]types.Object{},
 		Selections: map[*ast.SelectorExpr]*types.Selection{}}
-	conf := types.Config{Importer: w, Error: func(err error) { w.Errors = append(w.Errors, err) }}
+	conf := types.Config{Importer: w, Error: func(err error) {
+		// A setup file may import a package only for the sake of its notations (README: "should have been
+		// imported anyhow"); under an alias that import is unused for the type checker. convergen does not care.
+		if strings.Contains(err.Error(), "imported and not used") || strings.Contains(err.Error(), "imported as") && strings.Contains(err.Error(), "and not used") {
+			return
+		}
+		w.Errors = append(w.Errors, err)
+	}}
 	pkg, _ := conf.Check(ipath, w.Fset, files, info)
 	w.pkgs[ipath] = pkg
 	w.Infos[ipath] = info
